@@ -1,4 +1,145 @@
-From Coq Require Import QArith List. Import ListNotations.
+(* C18 - simulated trees meet their specification for every seed and are reproducible.
+   Statements about the executable model coq/Model/C18Model.v; proofs in Proofs/C18*.v. *)
+From Coq Require Import QArith List Bool Arith Permutation.
 From DV Require Import Model.C18Model.
-Theorem c18_placeholder : True. Proof. exact I. Qed.
-Print Assumptions c18_placeholder.
+From DV Require Import Proofs.C18Lists Proofs.C18Tree Proofs.C18Monad Proofs.C18BD Proofs.C18PB Proofs.C18Coal Proofs.C18Examples.
+Import ListNotations.
+Open Scope nat_scope.
+
+(* ---- birth_death_tree: partial correctness over EVERY draw script (termination of the random
+   walk is not claimed).  fresh_new = false is the code as it stands (fresh labels go through
+   require_taxon), cs the namespace's case sensitivity, ns its labels. ---- *)
+Theorem bd_result_spec : forall (fresh_new cs : bool) (P : bdp) (ns : list lab) (script : list draw)
+                                (t : btree) (ns' : list lab) (r : rs),
+  1 <= p_n P ->
+  bd_sim fresh_new cs P ns script = Done (t, ns') r ->
+  (* exactly N extant leaves *)
+  length (leaf_ids t) = p_n P /\
+  (* every internal node has exactly 2 children *)
+  (forall s, In s (subtrees t) -> length (b_kids s) = 0 \/ length (b_kids s) = 2) /\
+  (* well formed: no node occurs twice *)
+  NoDup (ids t) /\
+  (* all extant tips equidistant from the root (exact arithmetic) *)
+  (exists D, forall x q, In (x, q) (depths t) -> q == D)%Q /\
+  (* every leaf carries a taxon of the final namespace *)
+  (forall x, In x (leaf_taxa t) -> exists i, x = Some i /\ i < length ns') /\
+  (* ... and the N taxa are distinct - unless the namespace is case-insensitive and already holds
+     a lower-case variant "t<k>" of a fresh label (see bd_distinct_taxa_refuted) *)
+  ((fresh_new = true \/ cs = true \/ (forall k, ~ In (LT false k) ns)) -> NoDup (leaf_taxa t)).
+Proof. exact bd_result_spec_proved. Qed.
+Print Assumptions bd_result_spec.
+
+(* the full-strength clause (distinct taxa for EVERY supplied namespace) is false for the code as
+   it stands: witness namespace ["t1"], N = 2 *)
+Theorem bd_distinct_taxa_refuted :
+  exists P ns script t ns' r,
+    1 <= p_n P /\ bd_sim false false P ns script = Done (t, ns') r /\ ~ NoDup (leaf_taxa t).
+Proof. exact bd_taxa_refuted_proved. Qed.
+Print Assumptions bd_distinct_taxa_refuted.
+
+(* the loop invariant, written out *)
+Theorem bd_inv_unfold : forall N st,
+  bd_inv N st <->
+  ( NoDup (ids (s_tr st)) /\
+    (* extant = leaves minus extinct *)
+    (forall y, In y (leaf_ids (s_tr st)) <-> In y (s_ext st) \/ In y (s_dead st)) /\
+    NoDup (s_ext st ++ s_dead st) /\
+    (* arity 2 *)
+    arity (fun n => n = 0 \/ n = 2) (s_tr st) /\
+    (* all extant tips equidistant *)
+    (exists D, eqd (s_ext st) D (s_tr st)) /\
+    (forall y, In y (ids (s_tr st)) -> y < s_next st) /\
+    b_id (s_tr st) = 0 /\
+    1 <= length (s_ext st) <= N ).
+Proof.
+  intros N st. split.
+  - intros [H1 H2 H3 H4 H5 H6 H7 H8]. repeat split; try assumption; try apply H2; try apply H8.
+  - intros (H1 & H2 & H3 & H4 & H5 & H6 & H7 & H8). constructor; assumption.
+Qed.
+Print Assumptions bd_inv_unfold.
+
+Theorem bd_invariant_initial : forall P, 1 <= p_n P -> bd_inv (p_n P) (bd_init P).
+Proof. exact bd_init_inv. Qed.
+Print Assumptions bd_invariant_initial.
+
+(* one pass through the event loop (waiting time, event choice, birth / death / restart)
+   preserves the invariant, whatever the draws *)
+Theorem bd_invariant_step : forall P st r st' r',
+  1 <= p_n P -> bd_inv (p_n P) st -> length (s_ext st) < p_n P ->
+  bd_body P st r = Done st' r' -> bd_inv (p_n P) st'.
+Proof. exact bd_body_inv. Qed.
+Print Assumptions bd_invariant_step.
+
+Theorem bd_invariant_loop : forall fuel P st r st' r',
+  1 <= p_n P -> bd_inv (p_n P) st -> bd_loop fuel P st r = Done st' r' ->
+  bd_inv (p_n P) st' /\ length (s_ext st') = p_n P.
+Proof. exact bd_loop_inv. Qed.
+Print Assumptions bd_invariant_loop.
+
+(* restart after total extinction re-establishes the initial state (the seed keeps its length) *)
+Theorem bd_restart_initial : forall st, b_id (s_tr st) = 0 ->
+  s_ext (bd_restart st) = [0] /\ s_dead (bd_restart st) = [] /\
+  exists l x, s_tr (bd_restart st) = B 0 l x [].
+Proof. exact bd_restart_state. Qed.
+Print Assumptions bd_restart_initial.
+
+(* fuel = script length + 1 suffices: every pass consumes at least one draw or ends the run *)
+Theorem bd_fuel_suffices : forall fresh_new cs P ns script, bd_sim fresh_new cs P ns script <> NoFuel.
+Proof. exact bd_fuel_proved. Qed.
+Print Assumptions bd_fuel_suffices.
+
+(* ---- uniform_pure_birth_tree ---- *)
+Theorem pure_birth_spec : forall N b script t r,
+  1 <= N -> pb_sim N b script = Done t r ->
+  length (leaf_ids t) = N /\
+  leaf_taxa t = map Some (seq 0 N) /\
+  (forall s, In s (subtrees t) -> length (b_kids s) = 0 \/ length (b_kids s) = 2) /\
+  NoDup (ids t) /\
+  (exists D, forall x q, In (x, q) (depths t) -> q == D)%Q.
+Proof. exact pure_birth_spec_proved. Qed.
+Print Assumptions pure_birth_spec.
+
+Theorem pure_birth_fuel_suffices : forall N b script, pb_sim N b script <> NoFuel.
+Proof. exact pb_fuel_proved. Qed.
+Print Assumptions pure_birth_fuel_suffices.
+
+(* ---- pure_kingman_tree: total correctness ---- *)
+Theorem kingman_spec : forall N pop script t r,
+  kingman_sim N pop script = Done t r ->
+  (* one leaf per taxon *)
+  Permutation (gleaf_taxa t) (map Some (seq 0 N)) /\
+  (* every internal node has exactly 2 children *)
+  (forall s, In s (gsubtrees t) -> length (g_kids s) = 0 \/ length (g_kids s) = 2) /\
+  (* ultrametric: all root-to-tip sums equal *)
+  (exists D, forall x h, In (x, h) (gtips t) -> h == D)%Q.
+Proof. exact kingman_spec_proved. Qed.
+Print Assumptions kingman_spec.
+
+Theorem kingman_terminates : forall N pop script, kingman_sim N pop script <> NoFuel.
+Proof. exact kingman_fuel_proved. Qed.
+Print Assumptions kingman_terminates.
+
+(* every script that offers a waiting time and two distinct positions for n = N, ..., 2 lineages
+   makes the simulator return (and then kingman_spec applies) *)
+Theorem kingman_total : forall N pop script,
+  1 <= N ->
+  (fix ok (n : nat) (s : list draw) {struct n} : Prop :=
+     match n with
+     | S ((S m) as n') =>
+         match s with
+         | DExp _ :: DSample [i; j] :: rest => i < n /\ j < n /\ i <> j /\ ok n' rest
+         | _ => False
+         end
+     | _ => True
+     end) N script ->
+  exists t r, kingman_sim N pop script = Done t r.
+Proof. exact kingman_total_proved. Qed.
+Print Assumptions kingman_total.
+
+(* ---- determinism: the model is a function of (arguments, script); the meaningful half - the
+   implementation consumes exactly the model's draws in the same order and never touches
+   GLOBAL_RNG - is the draw-trace correspondence of py/dv/c18.py ---- *)
+Theorem deterministic : forall (s : simcall) (script1 script2 : list draw),
+  script1 = script2 -> run_sim s script1 = run_sim s script2.
+Proof. intros s script1 script2 E. rewrite E. reflexivity. Qed.
+Print Assumptions deterministic.
